@@ -953,7 +953,7 @@ class Grammar_generate_verified(Contract):
         if isinstance(r, SObj):
             srcs = r.fields.get("_sources")
             used = cx.ghost.get("generator_arguments")
-            if isinstance(srcs, SList) and "seq" in srcs.ghost:
+            if isinstance(srcs, SList) and "seq" in srcs.ghost and "rec_cls" not in srcs.ghost:
                 # a list of pre-existing trees (e.g. the argument trees themselves): readable, and not copies
                 return out + [("sources_are_deep_copies_of_the_argument_trees", z3.BoolVal(False))]
             ok = isinstance(srcs, SList) and used is not None and srcs.ghost.get("rec_cls") == "DerivationTree"
